@@ -5,8 +5,9 @@ cd "$(dirname "$0")"
 export GOFLAGS=-mod=mod GOPROXY=off GOSUMDB=off GOTOOLCHAIN=local CGO_ENABLED=0
 mkdir -p bin work evidence replays
 (cd extract && go build -o ../bin/extract .)
-./bin/extract /repo lean/RawPanelVerif/Gen
-cp /repo/go.sum harness/go.sum
-(cd harness && go build -tags verif -o ../bin/harness .)
+REPO="${VERIF_REPO:-/repo}"
+./bin/extract "$REPO" lean/RawPanelVerif/Gen
+cp "$REPO/go.sum" harness/go.sum
+(cd harness && go mod edit -replace=github.com/SKAARHOJ/rawpanel-lib="$REPO" && go build -tags verif -o ../bin/harness .)
 (cd lean && lake build)
 echo setup-ok
